@@ -14,12 +14,12 @@ def install():
     return DOE
 
 
-def sym_parameters(ctx, n, prefix=''):
-    """n parameters with symbolic bounds lb < ub."""
+def sym_parameters(ctx, n, prefix='', strict=True):
+    """n parameters with symbolic bounds lb < ub (strict=False: lb <= ub, i.e. fixed parameters included)."""
     params, box = [], []
     for i in range(n):
         lo, hi = ctx.real('%slb%d' % (prefix, i)), ctx.real('%sub%d' % (prefix, i))
-        ctx.assume(lo < hi)
+        ctx.assume(lo < hi if strict else lo <= hi)
         params.append({'name': 'x%d' % i, 'bounds': [lo, hi]})
         box.append((lo, hi))
     return params, box
